@@ -39,6 +39,7 @@ class World:
             e.update(env)
         self.stderr_path = "/tmp/vf-world-%d-%d.err" % (os.getpid(), id(self) & 0xffffff)
         self.errf = open(self.stderr_path, "wb")
+        self.clock = 0          # the harness's virtual clock after the last command
         self.p = subprocess.Popen((argv_prefix or []) + [exe], stdin=subprocess.PIPE,
                                   stdout=subprocess.PIPE, stderr=self.errf, env=e, bufsize=0)
         self.cmd_timeout = cmd_timeout
@@ -97,6 +98,7 @@ class World:
                 evs.append({"e": "garbage", "raw": raw.decode("latin1")[:200]})
                 continue
             if ev["e"] == "done":
+                self.clock = ev.get("t", self.clock)
                 return evs
             if ev["e"] == "call":
                 continue
@@ -182,6 +184,10 @@ class Sim:
         except WorldCrash as wc:
             self.log.extend(wc.events)
             raise
+        if self.w.clock > self.now:
+            # the library waited inside the command (coap_client_delay_first): virtual time
+            # went by in the harness
+            self.now = self.w.clock
         self._absorb(evs)
         return evs
 
